@@ -379,8 +379,9 @@ def session_case(seed):
     script = spaced
     # likewise an application that answers on the very instant at which the reader resumes over input that is already
     # buffered (a pipelined request, surplus bytes, the client's EOF) races with the reader, and each runtime's scheduler
-    # settles that race its own way: every application send gets its own instant too
-    plan = [[x for st in steps for x in ((("sleep", 0.0071), st) if st[0] in ("send", "send!") else (st,))] for steps in plan]
+    # settles that race its own way: every application send (and failure, and return) gets its own instant too
+    plan = [[x for st in steps for x in ((("sleep", 0.0071), st) if st[0] in ("send", "send!", "raise", "raise-nested", "return") else (st,))]
+            for steps in plan]
     T = rng.choice([5.0, 5.0, 1.0])
     out = {}
     for backend, run in (("asyncio", W.run_asyncio), ("trio", W.run_trio)):
